@@ -77,6 +77,24 @@ struct flow_driver
 
         // implementation API
         auto& impl = const_cast<impl_type&>(g5.impl());
+        (void) impl.single_flow();
+        (void) impl.grid();
+        (void) impl.size();
+        (void) impl.receivers();
+        (void) impl.receivers_count();
+        (void) impl.receivers_distance();
+        (void) impl.receivers_weight();
+        (void) impl.donors();
+        (void) impl.donors_count();
+        (void) impl.storage_indices();
+        (void) impl.any_order_levels();
+        (void) impl.dfs_indices();
+        (void) impl.bfs_indices();
+        (void) impl.bfs_levels();
+        (void) impl.base_levels();
+        (void) impl.mask();
+        (void) impl.is_masked(0);
+        (void) impl.is_base_level(0);
         (void) impl.pits();
         (void) impl.outlets();
         (void) impl.basins();
